@@ -128,6 +128,41 @@ class Violation:
         self.key, self.what, self.replay, self.found_input = key, what, replay, found_input
 
 
+def _harness_fault(text):
+    """If `text` holds a traceback whose innermost frame is harness code failing on a missing attribute of an
+    implementation object (AttributeError) or a TieBroken, return a one-line description, else None."""
+    if not isinstance(text, str) or ("AttributeError" not in text and "TieBroken" not in text):
+        return None
+    text = text.replace("\\n", "\n").replace('\\"', '"')
+    frames = re.findall(r'File "([^"]+)", line (\d+)', text)
+    if not frames:
+        return None
+    fn, ln = frames[-1]
+    hdir = os.path.join(VERIF, "harness")
+    if not os.path.abspath(fn).startswith(hdir):
+        return None
+    m = re.search(r"(AttributeError|TieBroken|common\.TieBroken): ([^\n]{0,300})", text[text.rfind(fn):])
+    if not m:
+        return None
+    if m.group(1) == "AttributeError" and ("has no attribute '_" not in m.group(2) or "'NoneType' object" in m.group(2)):
+        return None     # only a PRIVATE name missing on a live implementation object counts as a rewritten internals
+    return "%s at %s:%s: %s" % (m.group(1), os.path.relpath(fn, VERIF), ln, m.group(2))
+
+
+class TieBroken(Exception):
+    """The harness reaches into the implementation by a private name that no longer exists (or no longer means what the
+    harness assumes): the correspondence cannot be run; reported as a broken tie, never as a property failure."""
+
+
+def poke(obj, name, value):
+    """Set a private attribute of an implementation object, but only if the implementation really has it: a silent
+    setattr on a renamed attribute would make the harness test a state the code is not in."""
+    if not hasattr(obj, name):
+        raise TieBroken("%s has no attribute %r any more (renamed or removed); the harness sets it to drive the "
+                        "implementation into a chosen state" % (type(obj).__name__ if not isinstance(obj, type) else obj.__name__, name))
+    setattr(obj, name, value)
+
+
 class Check:
     """Bookkeeping shared by all property checks."""
 
@@ -204,6 +239,13 @@ class Check:
     def report(self, key, what, replay_obj, found_input=True):
         """Report a property failure identified by `key` (stable id of input/call site/history)."""
         key = re.sub(r"-?\d+", "N", key)
+        hf = _harness_fault(what) or _harness_fault(json.dumps(replay_obj, default=repr)[:20000])
+        if hf and found_input:
+            # An exception whose innermost frame is harness code reaching for a private name of the implementation is
+            # a broken tie (the code was rewritten under the harness), not a failure of the property on the code.
+            key, found_input = "tie:harness-private-name", False
+            what = ("the correspondence harness cannot observe this tree: %s; the tie between the Coq model and the code "
+                    "no longer checks (no property failure was exhibited)" % hf)
         e = self.known_open(key)
         if e is not None:
             if key not in [k for k, _ in self.known_hits]:
